@@ -13,31 +13,31 @@ import (
 
 // Job is what the orchestrator hands to one worker process.
 type Job struct {
-	Engine   string `json:"engine"`   // exec | crash | store | createkill
-	Property string `json:"property"` // e.g. C03: selects the generation profile and the oracle whose verdicts are reported
-	Tier     string `json:"tier"`
-	BaseSeed uint64 `json:"baseSeed"`
-	Offset   int    `json:"offset"` // this worker runs indices Offset, Offset+Stride, ...
-	Stride   int    `json:"stride"`
-	MaxRuns  int    `json:"maxRuns"`  // per worker
-	WallMs   int64  `json:"wallMs"`   // per worker wall-clock budget
-	Out      string `json:"out"`      // result file
-	Journal  string `json:"journal"`  // progress file (crash attribution)
+	Engine    string `json:"engine"`   // exec | crash | store | createkill
+	Property  string `json:"property"` // e.g. C03: selects the generation profile and the oracle whose verdicts are reported
+	Tier      string `json:"tier"`
+	BaseSeed  uint64 `json:"baseSeed"`
+	Offset    int    `json:"offset"` // this worker runs indices Offset, Offset+Stride, ...
+	Stride    int    `json:"stride"`
+	MaxRuns   int    `json:"maxRuns"` // per worker
+	WallMs    int64  `json:"wallMs"`  // per worker wall-clock budget
+	Out       string `json:"out"`     // result file
+	Journal   string `json:"journal"` // progress file (crash attribution)
 	ReplayDir string `json:"replayDir"`
-	Mode     string `json:"mode,omitempty"` // engine specific (e.g. enumerate)
-	Only     []int  `json:"only,omitempty"` // run exactly these indices
-	Minimize int    `json:"minimize"`       // probe budget per class
-	AllProps bool   `json:"allProps,omitempty"`
+	Mode      string `json:"mode,omitempty"` // engine specific (e.g. enumerate)
+	Only      []int  `json:"only,omitempty"` // run exactly these indices
+	Minimize  int    `json:"minimize"`       // probe budget per class
+	AllProps  bool   `json:"allProps,omitempty"`
 }
 
 // Found is one violation found by a worker.
 type Found struct {
-	Index   int       `json:"index"`
-	Seed    uint64    `json:"seed"`
-	V       Violation `json:"v"`
-	Replay  string    `json:"replay,omitempty"` // minimised replay file
-	Probes  int       `json:"probes,omitempty"`
-	Count   int       `json:"count"` // occurrences of the class seen by this worker
+	Index  int       `json:"index"`
+	Seed   uint64    `json:"seed"`
+	V      Violation `json:"v"`
+	Replay string    `json:"replay,omitempty"` // minimised replay file
+	Probes int       `json:"probes,omitempty"`
+	Count  int       `json:"count"` // occurrences of the class seen by this worker
 }
 
 // WorkerResult is what a worker reports back.
@@ -64,17 +64,17 @@ type WorkerResult struct {
 
 // Replay is the content of a replay file.
 type Replay struct {
-	Property string    `json:"property"`
-	Engine   string    `json:"engine"`
-	Class    string    `json:"class"`
-	Msg      string    `json:"msg"`
-	BaseSeed uint64    `json:"baseSeed"`
-	Index    int       `json:"index"`
-	Seed     uint64    `json:"seed"`
-	Minimised bool     `json:"minimised"`
-	Spec     *RunSpec  `json:"spec,omitempty"`
-	Store    *StoreSpec `json:"store,omitempty"`
-	Trace    []string  `json:"trace,omitempty"` // human-readable tail of the failing run
+	Property  string     `json:"property"`
+	Engine    string     `json:"engine"`
+	Class     string     `json:"class"`
+	Msg       string     `json:"msg"`
+	BaseSeed  uint64     `json:"baseSeed"`
+	Index     int        `json:"index"`
+	Seed      uint64     `json:"seed"`
+	Minimised bool       `json:"minimised"`
+	Spec      *RunSpec   `json:"spec,omitempty"`
+	Store     *StoreSpec `json:"store,omitempty"`
+	Trace     []string   `json:"trace,omitempty"` // human-readable tail of the failing run
 }
 
 func propHash(s string) uint64 {
@@ -266,6 +266,32 @@ func Nontrivial(t *Trace, prop string) bool {
 		}
 		return len(t.Res.Spec.Incs) > 0
 	}
+	switch prop {
+	case "C09", "C10":
+		// a crash left a plan durably Running (there is something to resume)
+		for _, ci := range crashesOf(t) {
+			for i, d := range ci.D {
+				if d != nil && status(d, planPath(i)) == StRunning {
+					return true
+				}
+			}
+		}
+		return false
+	case "C11":
+		// the store at a restart holds plans in >= 2 different statuses, or a Running plan
+		for _, ci := range crashesOf(t) {
+			sts := map[int]bool{}
+			for i, d := range ci.D {
+				if d != nil {
+					sts[status(d, planPath(i))] = true
+				}
+			}
+			if len(sts) >= 2 || sts[StRunning] {
+				return true
+			}
+		}
+		return false
+	}
 	return len(t.Invs) > 0
 }
 
@@ -398,8 +424,10 @@ func trunc(s string, n int) string {
 // engine table ---------------------------------------------------------------
 
 type engine struct {
-	gen  func(seed uint64, job *Job, idx int) *RunSpec
-	eval func(res *RunResult) []Violation
+	gen func(seed uint64, job *Job, idx int) *RunSpec
+	// drive performs every run that belongs to one index of a batch
+	drive func(job *Job, idx int, seed uint64, run func(*RunSpec) *RunResult, expired func() bool, res *WorkerResult)
+	eval  func(res *RunResult) []Violation
 	// post collects engine-specific probes
 	post func(t *Trace, probes map[string]int)
 }
@@ -408,7 +436,10 @@ var engines = map[string]*engine{}
 
 func init() {
 	engines["exec"] = &engine{
-		gen:  func(seed uint64, job *Job, idx int) *RunSpec { return GenExec(seed, job.Property, idx) },
+		gen: func(seed uint64, job *Job, idx int) *RunSpec { return GenExec(seed, job.Property, idx) },
+		drive: func(job *Job, idx int, seed uint64, run func(*RunSpec) *RunResult, expired func() bool, res *WorkerResult) {
+			run(GenExec(seed, job.Property, idx))
+		},
 		eval: EvaluateExec,
 		post: ExecProbes,
 	}
@@ -479,9 +510,10 @@ func WorkerMain(t *testing.T) {
 		}
 		return job.Offset + k*job.Stride, true
 	}
+	expired := func() bool { return job.WallMs > 0 && indices == nil && time.Now().After(deadline) }
 	for k := 0; ; k++ {
 		idx, ok := next(k)
-		if !ok || (job.WallMs > 0 && time.Now().After(deadline) && indices == nil) {
+		if !ok || expired() {
 			break
 		}
 		seed := RunSeed(job.BaseSeed, job.Engine, job.Property, idx)
@@ -492,92 +524,98 @@ func WorkerMain(t *testing.T) {
 			res.FirstSeed = seed
 		}
 		res.LastSeed = seed
-		spec := eng.gen(seed, &job, idx)
-		r, vs := eval(t, spec)
-		res.Runs++
-		if r.Harness != "" {
-			res.Harness = append(res.Harness, fmt.Sprintf("run %d seed %d: %s", idx, seed, trunc(r.Harness, 2000)))
-			continue
-		}
-		res.SimNs += r.SimNs
-		res.Steps += int64(r.Steps)
-		res.Events += int64(len(r.Events))
-		res.Detsel += r.Detsel
-		for k, n := range r.Faults {
-			res.Faults[k] += n
-		}
-		for k, n := range r.Probes {
-			res.Probes[k] += n
-		}
-		if r.Overrun {
-			res.Overruns++
-			continue
-		}
-		if r.Hang {
-			res.Hangs++
-		}
-		if job.Mode == "hashes" {
-			res.Extra[fmt.Sprintf("run%05d", idx)] = int(FullHash(r) & 0x7fffffffffff)
-		}
-		tr := BuildTrace(r)
-		if eng.post != nil {
-			eng.post(tr, res.Probes)
-		}
-		if Nontrivial(tr, job.Property) {
-			res.Nontrivial++
-			sg := Signature(r)
-			if !sigs[sg] {
-				sigs[sg] = true
-				res.Sigs = append(res.Sigs, sg)
+		sub := 0
+		// run executes one world, accounts for it and reports its violations
+		run := func(spec *RunSpec) *RunResult {
+			r, vs := eval(t, spec)
+			res.Runs++
+			sub++
+			if r.Harness != "" {
+				res.Harness = append(res.Harness, fmt.Sprintf("run %d.%d seed %d: %s", idx, sub, seed, trunc(r.Harness, 2000)))
+				return r
 			}
-		}
-		if len(res.Samples) < 2 {
-			res.Samples = append(res.Samples, map[string]any{"index": idx, "seed": seed, "spec": spec, "trace_head": head(traceTail(r, 1<<30), 25)})
-		}
-		for _, v := range vs {
-			if f := byClass[v.Class]; f != nil {
-				f.Count++
-				continue
+			res.SimNs += r.SimNs
+			res.Steps += int64(r.Steps)
+			res.Events += int64(len(r.Events))
+			res.Detsel += r.Detsel
+			for k, n := range r.Faults {
+				res.Faults[k] += n
 			}
-			f := &Found{Index: idx, Seed: seed, V: v, Count: 1}
-			byClass[v.Class] = f
-			res.Found = append(res.Found, f)
-			rep := &Replay{Property: v.Prop, Engine: job.Engine, Class: v.Class, Msg: v.Msg, BaseSeed: job.BaseSeed, Index: idx, Seed: seed}
-			min := spec
-			if job.Minimize > 0 {
-				m, probes := Minimize(t, spec, v.Class, eval, job.Minimize)
-				f.Probes = probes
-				min = m
-				rep.Minimised = true
+			for k, n := range r.Probes {
+				res.Probes[k] += n
 			}
-			if min.Decisions == nil {
-				frozen := cloneSpec(min)
-				frozen.Decisions = r.Decisions
-				min = frozen
+			if r.Overrun {
+				res.Overruns++
+				return r
 			}
-			rep.Spec = min
-			if rr, vv := eval(t, min); rr.Harness == "" && hasClass(vv, v.Class) {
-				rep.Trace = traceTail(rr, 60)
-				for _, x := range vv {
-					if x.Class == v.Class {
-						rep.Msg = x.Msg
+			if r.Hang {
+				res.Hangs++
+			}
+			if job.Mode == "hashes" {
+				res.Extra[fmt.Sprintf("run%05d.%03d", idx, sub)] = int(FullHash(r) & 0x7fffffffffff)
+			}
+			tr := BuildTrace(r)
+			if eng.post != nil {
+				eng.post(tr, res.Probes)
+			}
+			if Nontrivial(tr, job.Property) {
+				res.Nontrivial++
+				sg := Signature(r)
+				if !sigs[sg] {
+					sigs[sg] = true
+					res.Sigs = append(res.Sigs, sg)
+				}
+			}
+			if len(res.Samples) < 2 && (sub > 1 || job.Engine == "exec") {
+				res.Samples = append(res.Samples, map[string]any{"index": idx, "seed": seed, "spec": spec, "trace_head": head(traceTail(r, 1<<30), 25)})
+			}
+			for _, v := range vs {
+				if f := byClass[v.Class]; f != nil {
+					f.Count++
+					continue
+				}
+				f := &Found{Index: idx, Seed: seed, V: v, Count: 1}
+				byClass[v.Class] = f
+				res.Found = append(res.Found, f)
+				rep := &Replay{Property: v.Prop, Engine: job.Engine, Class: v.Class, Msg: v.Msg, BaseSeed: job.BaseSeed, Index: idx, Seed: seed}
+				min := spec
+				if job.Minimize > 0 {
+					m, probes := Minimize(t, spec, v.Class, eval, job.Minimize)
+					f.Probes = probes
+					min = m
+					rep.Minimised = true
+				}
+				if min.Decisions == nil {
+					frozen := cloneSpec(min)
+					frozen.Decisions = r.Decisions
+					min = frozen
+				}
+				rep.Spec = min
+				if rr, vv := eval(t, min); rr.Harness == "" && hasClass(vv, v.Class) {
+					rep.Trace = traceTail(rr, 60)
+					for _, x := range vv {
+						if x.Class == v.Class {
+							rep.Msg = x.Msg
+						}
+					}
+				} else {
+					// the minimised spec does not reproduce: fall back to the original
+					frozen := cloneSpec(spec)
+					frozen.Decisions = r.Decisions
+					rep.Spec, rep.Minimised = frozen, false
+					rep.Trace = traceTail(r, 60)
+				}
+				if job.ReplayDir != "" {
+					name := fmt.Sprintf("%s/%s-%s-%d-%016x.json", job.ReplayDir, v.Prop, job.Engine, idx, propHash(v.Class))
+					rb, _ := json.MarshalIndent(rep, "", " ")
+					if err := os.WriteFile(name, rb, 0o644); err == nil {
+						f.Replay = name
 					}
 				}
-			} else {
-				// the minimised spec does not reproduce: fall back to the original
-				frozen := cloneSpec(spec)
-				frozen.Decisions = r.Decisions
-				rep.Spec, rep.Minimised = frozen, false
-				rep.Trace = traceTail(r, 60)
 			}
-			if job.ReplayDir != "" {
-				name := fmt.Sprintf("%s/%s-%s-%d-%016x.json", job.ReplayDir, v.Prop, job.Engine, idx, propHash(v.Class))
-				rb, _ := json.MarshalIndent(rep, "", " ")
-				if err := os.WriteFile(name, rb, 0o644); err == nil {
-					f.Replay = name
-				}
-			}
+			return r
 		}
+		eng.drive(&job, idx, seed, run, expired, res)
 	}
 	res.WallMs = time.Since(start).Milliseconds()
 	sort.Strings(res.Sigs)
